@@ -107,6 +107,7 @@ class SymCtx(_CtxBase):
                 self.eng.assume(_neg(cond))
         elif kind == "witness":
             if fid == arg:
+                self.eng.witness_hit = True
                 self.eng.assume(cond)
 
     def unwind(self, what):
@@ -411,6 +412,8 @@ def _handle(fn, params, mode, res, stats, validate_every, counter):
     stats.add_path(res)
     if res.status == "abort":
         return None
+    if mode[0] == "witness" and not getattr(res.eng, "witness_hit", False):
+        return None          # this path never entered the class being witnessed: irrelevant for the witness run
     if res.status == "inconclusive":
         return ("inconclusive", res.msg, None, res.tb)
     if res.status == "ok":
